@@ -14,7 +14,7 @@ use std::collections::HashMap;
 pub struct C01;
 
 pub fn gen_case(t: &mut Tape, max_items: usize, allow_banks: bool, allow_faults: bool) -> (Program, ProgInfo) {
-    let isa = IsaGen { size_static: true }.gen(t);
+    let isa = IsaGen { size_static: true, asserts: true }.gen(t);
     ProgGen { max_items, allow_banks, allow_faults, family_bias: false }.gen(t, isa)
 }
 
